@@ -181,69 +181,82 @@ def r2(ctx):
 
 
 def r3(ctx):
+    """parse_order_by evaluated (finite interpreter; the parser's cursor is its lexem list and index, parse_expr is a stand-in
+    that takes one lexem and returns a tagged expression) on the shapes an ORDER BY clause can take over a select list of
+    three columns: a positional key n denotes select-list column n, every key is kept with one direction (ascending by
+    default), `desc` flips the key just before it, a position outside 1..3 and a `desc` without a key are errors, an absent
+    clause leaves the cursor where it was"""
+    import interp
+    import norm
+    V = interp.V
     hir = ctx.anchor_hir(PARSE_ORDER_BY)
-    # positional key n -> select-list column n - 1 (index form or checked_sub(1) + get form)
-    idx = [x for x in walk_exprs(hir) if x["k"] == "Index" and "fields" in render(x["e"])]
-    ok = len(idx) == 1 and render(peel(idx[0]["i"], methods=False)) == "(idx - 1)"
-    if not idx:
-        gets = [c for c in walk_exprs(hir) if c["k"] == "MCall" and c["m"] == "get" and render(c["recv"]) == "fields"]
-        subs = [c for c in walk_exprs(hir) if c["k"] == "MCall" and c["m"] in ("checked_sub", "saturating_sub") and render(c["recv"]) == "idx"
-                and render(c["args"][0]) == "1"]
-        ok = len(gets) == 1 and len(subs) == 1 and any(y is gets[0] for y in walk_exprs(path_to(hir, gets[0])[-3][0])) and \
-            any(any(y is gets[0] for y in walk_exprs(a)) for c in walk_exprs(hir) if c["k"] == "MCall" and c["m"] == "and_then" and
-                any(y is subs[0] for y in walk_exprs(c["recv"])) for a in c["args"])
-    ctx.obligation(ok)
-    if not ok:
-        ctx.violation("parse_order_by/positional", ctx.where(PARSE_ORDER_BY), "a positional key n must denote select-list column n (index n - 1)")
-    # pushes: one direction per key, default ascending
-    pushes = [c for c in walk_exprs(hir) if c["k"] == "MCall" and c["m"] == "push"]
-    by = {}
-    for p in pushes:
-        by.setdefault(render(p["recv"]), []).append(p)
-    fields_p = [k for k in by if "field" in k]
-    dirs_p = [k for k in by if "direction" in k]
-    ok = len(fields_p) == 1 and len(dirs_p) == 1 and len(by[fields_p[0]]) == len(by[dirs_p[0]]) == 1 and \
-        render(by[dirs_p[0]][0]["args"][0]) == "true"
-    if ok:
-        # both pushes sit in the same block (same arm): paired on every path
-        a = guards_of(hir, by[fields_p[0]][0])
-        b = guards_of(hir, by[dirs_p[0]][0])
-        ok = [render(g[1]) if g[0] != "loop" and g[0] != "closure" else g[0] for g in a] == \
-             [render(g[1]) if g[0] != "loop" and g[0] != "closure" else g[0] for g in b]
-    ctx.obligation(ok)
-    if not ok:
-        ctx.violation("parse_order_by/pairing", ctx.where(PARSE_ORDER_BY), "every ordering key must push exactly one direction, ascending (true) by default, on the same path")
-    if ok:
-        # every key of the list is kept: the push may depend only on which lexem was read, never on the keys read so
-        # far (a skipped key lets its `desc` reverse the key before it)
-        extra = [g for g in guards_of(hir, by[fields_p[0]][0]) if g[0] == "if" and not (g[1]["k"] == "LetE" and "Lexem::" in render_pat(g[1]["pat"]))]
-        ctx.obligation(not extra)
-        if extra:
-            ctx.violation("parse_order_by/every-key-kept", ctx.where(PARSE_ORDER_BY, by[fields_p[0]][0]),
-                          "an ordering key is recorded only when %s: a key that is dropped leaves its `desc` to the key before it "
-                          "and the remaining keys no longer line up with the query" % "; ".join(guard_text(g) for g in extra))
-    # desc: last direction := false
-    desc_ok = False
-    for mm in find_matches(hir):
-        for a in match_arms(mm):
-            if any("DescendingOrder" in render_pat(p) for p in pat_alts(a["pat"])):
-                asg = [x for x in walk_exprs(a["body"]) if x["k"] == "Assign" and render(x["r"]) == "false"]
-                if len(asg) != 1:
-                    continue
-                l = asg[0]["l"]
-                if l["k"] == "Index":
-                    i = render(l["i"])
-                    cnt = [x for x in walk(a["body"]) if x["k"] == "Let" and "len()" in render(x.get("init"))]
-                    desc_ok = ("direction" in render(l["e"])) and ((i == "(cnt - 1)" and bool(cnt)) or "len() - 1" in i)
-                elif l["k"] == "Un" and l["op"] == "*":
-                    # `match directions.last_mut() { Some(d) => *d = false, .. }`
-                    lm = [c for c in walk_exprs(a["body"]) if c["k"] == "MCall" and c["m"] == "last_mut" and "direction" in render(c["recv"])]
-                    desc_ok = len(lm) == 1
-    ctx.obligation(desc_ok)
-    if not desc_ok:
-        ctx.violation("parse_order_by/desc", ctx.where(PARSE_ORDER_BY), "`desc` must set the direction of the last key (index len - 1) to false")
-    ctx.covered("parse_order_by: positional index, key/direction pairing, default direction, desc target", 4,
-                distinct_keys=["positional", "pairing", "default", "desc"])
+    ps = ctx.prog.fns[PARSE_ORDER_BY]["params"]
+    tys = norm.param_types(ctx.prog.fns[PARSE_ORDER_BY].get("sig"))
+    self_p = [p_["id"] for p_, t_ in zip(ps, tys) if "Parser" in t_]
+    fields_p = [p_["id"] for p_, t_ in zip(ps, tys) if "Expr" in t_]
+    if len(self_p) != 1 or len(fields_p) != 1:
+        ctx.obligation(False)
+        ctx.violation("parse_order_by/unreadable", ctx.where(PARSE_ORDER_BY), "parse_order_by no longer takes the parser and the select list: %s" % tys)
+        return
+    R, ORDER, BY, DESC, COMMA, LIMIT = (lambda t: V("Lexem::RawString", [t])), V("Lexem::Order"), V("Lexem::By"), V("Lexem::DescendingOrder"), V("Lexem::Comma"), V("Lexem::Limit")
+    F = [{"__expr": "col%d" % i} for i in (1, 2, 3)]
+    E = lambda t: {"__expr": t}
+    shapes = [
+        ("no clause", [], ([], []), 0),
+        ("another clause", [LIMIT, R("5")], ([], []), 0),
+        ("one key", [ORDER, BY, R("name")], ([E("name")], [True]), None),
+        ("one key desc", [ORDER, BY, R("name"), DESC], ([E("name")], [False]), None),
+        ("positions 2 desc, 1", [ORDER, BY, R("2"), DESC, COMMA, R("1")], ([F[1], F[0]], [False, True]), None),
+        ("position 3", [ORDER, BY, R("3")], ([F[2]], [True]), None),
+        ("three keys, middle desc", [ORDER, BY, R("name"), COMMA, R("size"), DESC, COMMA, R("3")], ([E("name"), E("size"), F[2]], [True, False, True]), None),
+        ("same key twice, second desc", [ORDER, BY, R("name"), COMMA, R("name"), DESC], ([E("name"), E("name")], [True, False]), None),
+        ("first of two desc", [ORDER, BY, R("name"), DESC, COMMA, R("size")], ([E("name"), E("size")], [False, True]), None),
+        ("followed by LIMIT", [ORDER, BY, R("name"), LIMIT, R("5")], ([E("name")], [True]), 3),
+        ("position 0", [ORDER, BY, R("0")], "err", None),
+        ("position 4", [ORDER, BY, R("4")], "err", None),
+        ("desc without a key", [ORDER, BY, DESC], "err", None),
+    ]
+    n = 0
+    for label, lexems, want, want_index in shapes:
+        selfv = interp.LazySelf({"lexems": list(lexems), "index": 0, "roots_parsed": True, "where_parsed": True})
+
+        def call(node, recv, args, it, env, selfv=selfv):
+            m_ = node.get("m")
+            callee = str(node.get("callee", ""))
+            if m_ == "parse_expr" or callee.endswith("Parser::parse_expr"):
+                i = selfv["index"]
+                if i < len(selfv["lexems"]) and selfv["lexems"][i].name in ("Lexem::RawString", "Lexem::String"):
+                    selfv["index"] = i + 1
+                    return (V("Result::Ok", [interp.some({"__expr": selfv["lexems"][i].args[0]})]),)
+                return (V("Result::Err", ["Error parsing expression"]),)
+            if m_ in ("clone", "to_owned") and isinstance(recv, dict) and "__expr" in recv:
+                return (recv,)
+            return None
+        try:
+            got = interp.Interp(call=call, prog=ctx.prog, max_steps=20000).run(hir, {self_p[0]: selfv, fields_p[0]: list(F)})
+        except interp.Undecided as e:
+            ctx.obligation(False)
+            ctx.violation("parse_order_by/unreadable", ctx.where(PARSE_ORDER_BY), "cannot evaluate parse_order_by on `%s` %s: %s" % (label, lexems, e))
+            return
+        n += 1
+        if isinstance(got, V) and got.name == "Result::Err":
+            g = "err"
+        elif isinstance(got, V) and got.name == "Result::Ok" and isinstance(got.args[0], tuple) and len(got.args[0]) == 2:
+            g = (list(got.args[0][0]), list(got.args[0][1]))
+        else:
+            g = ("?", got)
+        ok = g == want and (want_index is None or selfv["index"] == want_index)
+        ctx.obligation(ok)
+        if not ok:
+            key = {"position 0": "positional", "position 4": "positional", "positions 2 desc, 1": "positional", "position 3": "positional",
+                   "desc without a key": "desc", "one key desc": "desc", "first of two desc": "desc", "three keys, middle desc": "desc",
+                   "same key twice, second desc": "every-key-kept", "no clause": "absent", "another clause": "absent", "followed by LIMIT": "absent"}.get(label, "pairing")
+            ctx.violation("parse_order_by/%s" % key, ctx.where(PARSE_ORDER_BY),
+                          "ORDER BY clause `%s` over the select list (col1, col2, col3): lexems %s give %s%s, expected %s: a positional key n denotes column n, every key is kept "
+                          "with one direction, ascending unless `desc` follows it" %
+                          (label, lexems, g, " (cursor left at %s)" % selfv["index"] if want_index is not None else "", want))
+    ctx.covered("parse_order_by evaluated on 13 clause shapes (positional keys, directions, errors, cursor)", n, distinct_keys=[s_[0] for s_ in shapes], exhaustive=True)
+    ctx.floor(n, 13, "ORDER BY clause shapes", PARSE_ORDER_BY)
 
 
 def r4(ctx):
